@@ -478,7 +478,8 @@ class World:
         self.twin_snapshot = snapshot_config(self.twin)
         k = self.kernel
         import logging
-        logging.disable(logging.CRITICAL)
+        if not core.DEBUG_LOG_ON:
+            logging.disable(logging.CRITICAL)
         with Seams(self):
             try:
                 for spec in plan["clients"]:
